@@ -104,6 +104,10 @@ class C17(Base):
                 ops.insert(rng.randrange(len(ops) + 1), "pf")       # prefetch at any point of the history
         if rng.random() < 0.2:
             ops.insert(rng.randrange(len(ops) + 1), "sx")           # a (refused) sync request in between
+        if rng.random() < 0.12:
+            # a pending request is DROPPED (timeout / select!), later requests and polls follow
+            for _ in range(rng.choice([1, 1, 2])):
+                ops.insert(rng.randrange(len(ops) // 2 + 1), "cancel:%d" % rng.randrange(k))
         return "cache " + ";".join([header("a", k, needs, end)] + ops)
 
     def gen_fair(self, rng, maxlen, big=False, joined=False):
@@ -277,6 +281,7 @@ class C17(Base):
         waiting = [False] * k       # request in flight returned Pending last time
         woken = [False] * k         # waker fired since the task was last polled
         maxdepth = 0                # deepest request polled so far
+        cancelled = False           # a pending request has been dropped
         for op, o in zip(ops, obs[1:]):
             p = op.split(":")
             if o == "bad-op":
@@ -292,6 +297,20 @@ class C17(Base):
                 elif o != "busy":
                     return "start on busy consumer answered %s" % o
                 continue
+            if p[0] == "cancel":
+                c = int(p[1])
+                if depth[c] is None:
+                    if o != "idle":
+                        return "cancel of a consumer without request answered %s" % o
+                    continue
+                mm = re.match(r"^x#(\d+)\.(\d+)!(.*)$", o)
+                if not mm:
+                    return "cancel answered %s" % o
+                if int(mm.group(1)) != polls or int(mm.group(2)) != pulls or mm.group(3) != "-":
+                    return "dropping a request touched the source or woke somebody: %s" % o
+                depth[c], waiting[c], woken[c] = None, False, False
+                cancelled = True       # from here on the wake-up bookkeeping is not judged (see DESIGN 11.4c); order,
+                continue               # laziness and 'a polled request makes progress' still are
             if p[0] == "sx":
                 mm = re.match(r"^sx:refused#(\d+)\.(\d+)!(.*)$", o)
                 if not mm:
@@ -328,7 +347,7 @@ class C17(Base):
                 if dpolls or dpulls:
                     return "lazy: the source was polled without any request being polled (fire)"
                 someone_runnable = any(waiting[c] and woken[c] for c in range(k))
-                if mode == "a" and cur_need > 0 and any(waiting) and not someone_runnable:
+                if mode == "a" and cur_need > 0 and any(waiting) and not someone_runnable and not cancelled:
                     # every waiting task is parked: the source must hold the waker of one of them
                     if len(wakes) != 1 or not any(waiting[c] for c in members(wakes[0])):
                         return ("lost wake-up: requests %s are parked, nobody is runnable, the source fired and woke %s"
@@ -388,7 +407,7 @@ class C17(Base):
                 if kind != "P" and m.group(2) is None and mode == "a" and cur_need != 0:
                     return "stream ended while the script still needs events"
             polls, pulls = npolls, npulls
-            if mode == "a" and any(waiting):
+            if mode == "a" and any(waiting) and not cancelled:
                 runnable = any(waiting[c] and woken[c] for c in range(k))
                 if not runnable and cur_need == 0:
                     return ("lost wake-up: requests %s are waiting, none of them has been woken, and the source is "
